@@ -159,12 +159,12 @@ structure Frame where
   code : List Instr
   ip : Nat
   stack : List Val
-deriving Repr, Inhabited
+deriving DecidableEq, Repr, Inhabited
 
 structure VM where
   cur : Frame
   frames : List Frame        -- suspended callers, innermost first
-deriving Repr, Inhabited
+deriving DecidableEq, Repr, Inhabited
 
 inductive StepRes where
   | next (vm : VM)
